@@ -461,7 +461,14 @@ def c03(res):
     meta, spath = W.generate(fam, module="MC_Requests")
     res.states += meta["states"]
     res.transitions += meta["transitions"]
-    run_requests(res, spath, name_requests, fam, [SERVER_CONFIGS[0], SERVER_CONFIGS[1]] if q else SERVER_CONFIGS)
+    if q:
+        # quick: every name up to length 4 against the shared-directory server, every name up to
+        # length 3 against distinct directories with --overwrite
+        allv = [json.loads(l) for l in open(spath)]
+        run_requests(res, allv, name_requests, fam, [SERVER_CONFIGS[0]])
+        run_requests(res, [v for v in allv if len(v["name"]) <= 3], name_requests, fam + "-len3", [SERVER_CONFIGS[1]])
+    else:
+        run_requests(res, spath, name_requests, fam, SERVER_CONFIGS)
     res.extra["exhaustive"] = True
     # the directories themselves: with only -d and -rd given, reads must come from -d
     run_requests(res, [{"name": list(n)} for n in (b"b", b"a/a", b"a/b", b"s", b"zz", b"/b", b"a\\a")], name_requests, "dirs-rd-only", [SERVER_CONFIGS[4]])
@@ -504,7 +511,7 @@ def c03(res):
              b"caf\xc3\xa9", b"\xe2\x80\xa6", b"x" * 254, b"y" * 255, b"z" * 256, b" ", b"a b", b"-", b"~", b"C:", b"\xff"]
     seps = [b"/", b"\\", b"//", b"\\\\", b"/./", b"/../", b"\\..\\", b"/\\"]
     vectors = []
-    for i in range(150 if q else 4000):
+    for i in range(100 if q else 4000):
         n = rng.choice([1, 1, 2, 2, 3, 4, 6])
         name = rng.choice([b"", b"/", b"\\", b"../", b"//"]) if rng.random() < 0.4 else b""
         for j in range(n):
